@@ -66,7 +66,7 @@ std::map<long, long> bijection(const TA& a, Rng& r, bool sparse) {
 
 int incl(const ET& a, const ET& b, long sel, const std::string& site) {
 	bool down = sel >= 2, rec = sel >= 4, opt = sel >= 6, sim = sel & 1;
-	api_begin(); api_site(site, BUDGET_INCONCLUSIVE, sel < 2 ? 60000000 : 6000000);
+	api_begin(); api_site(site, BUDGET_INCONCLUSIVE, g_tier == "thorough" ? (sel < 2 ? 60000000 : 20000000) : (sel < 2 ? 12000000 : 4000000));
 	int v;
 	try {
 		if (!sim) { VATA::InclParam ip; ip.SetDirection(down ? VATA::InclParam::e_direction::downward : VATA::InclParam::e_direction::upward); ip.SetUseRecursion(rec); ip.SetUseDownwardCacheImpl(opt); v = ET::CheckInclusion(a, b, ip) ? 1 : 0; }
@@ -202,7 +202,7 @@ mdl::FA fa_read_back(const EF& a) { VATA::Serialization::TimbukSerializer ser; m
 
 int fa_incl(const EF& a, const EF& b, long alg, const std::string& site) {
 	VATA::InclParam ip; if (alg == 0) ip.SetAlgorithm(VATA::InclParam::e_algorithm::antichains); else { ip.SetAlgorithm(VATA::InclParam::e_algorithm::congruences); ip.SetSearchOrder(alg == 1 ? VATA::InclParam::e_search_order::depth : VATA::InclParam::e_search_order::breadth); }
-	api_begin(); api_site(site, BUDGET_INCONCLUSIVE, 60000000);
+	api_begin(); api_site(site, BUDGET_INCONCLUSIVE, g_tier == "thorough" ? 60000000 : 8000000);
 	int v = EF::CheckInclusion(a, b, ip) ? 1 : 0; api_end(); observe(uint64_t(v)); count(c_oracle_evals); (v ? count(c_verdict_true) : count(c_verdict_false)); return v;
 }
 
